@@ -65,31 +65,73 @@ def stateJson (m : Mapper) : Json :=
 def obsJson (o : Obs) : Json :=
   Json.mkObj [("id", o.id), ("level", o.level), ("key", pnameStr o.key),
     ("attrs", Json.arr (o.attrs.map fun a => Json.str (pnameStr a.2)).toArray),
+    ("attrsR", Json.arr (o.attrsR.map fun a => Json.str (pnameStr a.2)).toArray),
     ("nsK", mapJson o.nsAtKey), ("nsA", mapJson o.nsAtAttrs),
     ("revK", mapJson o.revAtKey), ("revA", mapJson o.revAtAttrs), ("ret", retJson o.ret)]
 
+/-- a key of decoded data as a structured name: `{uri}local`, `prefix:local` (first colon) or `local` -/
+def parsePNameStr (s : String) : PName :=
+  let cs := s.toList
+  match cs with
+  | '{' :: rest =>
+    let u := rest.takeWhile (· ≠ '}')
+    let l := (rest.dropWhile (· ≠ '}')).drop 1
+    .braced (String.ofList u) (String.ofList l)
+  | _ =>
+    if cs.contains ':' then
+      .pre (String.ofList (cs.takeWhile (· ≠ ':'))) (String.ofList ((cs.dropWhile (· ≠ ':')).drop 1))
+    else .loc s
+
+partial def itemJson : Item → Json
+  | .node id key isMap xmlns attrs ch =>
+    Json.mkObj [("id", id), ("key", pnameStr key), ("map", isMap), ("xmlns", mapJson xmlns),
+      ("attrs", Json.arr (attrs.map fun a => Json.str (pnameStr a)).toArray),
+      ("ch", Json.arr (ch.map itemJson).toArray)]
+
+partial def parseItem (j : Json) : Except String Item := do
+  let id ← getNat j "id"
+  let key := parsePNameStr (← getStr j "key")
+  let isMap ← getBool j "map"
+  let xmlns ← parsePairs j "xmlns"
+  let attrs := (← getStrList j "attrs").map parsePNameStr
+  let ch ← (← getArr j "ch").toList.mapM parseItem
+  return .node id key isMap xmlns attrs ch
+
+def encObsJson (e : EncObs) : Json :=
+  Json.mkObj [("id", e.id), ("level", e.level), ("ns", mapJson e.ns), ("rev", mapJson e.rev),
+    ("tag", unmappedStr e.tag), ("attrs", Json.arr (e.attrs.map fun a => Json.str (unmappedStr a)).toArray)]
+
+def parseCfg (j : Json) : NameCfg :=
+  { process := (j.getObjValAs? Bool "process").toOption.getD true,
+    strip := (j.getObjValAs? Bool "strip").toOption.getD false }
+
+def parseRule (j : Json) : AttrRule :=
+  if (j.getObjValAs? String "arule").toOption.getD "current" = "repaired" then .repaired else .current
+
 /-- one step of an operation script on a bare mapper -/
-def step (v : Variant) (mode : Mode) (m : Mapper) (j : Json) : Except String (Mapper × Json) := do
+def step (v : Variant) (mode : Mode) (cfg : NameCfg) (m : Mapper) (j : Json) : Except String (Mapper × Json) := do
   match ← getStr j "k" with
   | "ctx" =>
     let r := setContext v mode m (← getNat j "obj") (← getNat j "level") (← parsePairs j "decl")
     return (r.m, Json.mkObj [("ret", retJson r.ret), ("fuel", !r.fuelOk)])
   | "set" =>
-    -- "setrep": the tree under check has the repaired `__setitem__`
+    -- "setrep" (default true): `__setitem__` as it is now; false = as it was before fix b20c29d
     let p ← getStr j "p"
     let u ← getStr j "u"
-    let m' := if (j.getObjValAs? Bool "setrep").toOption.getD false
-      then setItemRepaired m p u else setItem m p u
+    let m' := if (j.getObjValAs? Bool "setrep").toOption.getD true
+      then setItem m p u else setItemPre m p u
     return (m', Json.mkObj [("ret", Json.null)])
   | "del" =>
     match delItem m (← getStr j "p") with
     | some m' => return (m', Json.mkObj [("ret", Json.null)])
     | none => return (m, Json.mkObj [("ret", "KeyError")])
   | "map" =>
-    return (m, Json.mkObj [("ret", pnameStr (mapQName m (← parseQN (← j.getObjVal? "q"))))])
+    return (m, Json.mkObj [("ret", pnameStr (mapQNameCfg cfg m (← parseQN (← j.getObjVal? "q"))))])
+  | "mapattr" =>
+    return (m, Json.mkObj [("ret", pnameStr (mapAttr (parseRule j) m (← parseQN (← j.getObjVal? "q"))))])
   | "unmap" =>
     let n ← parsePName (← j.getObjVal? "n")
-    let r := unmapQName m.ns (← parsePairs j "xmlns") (← getBool j "tab") n
+    let r := unmapQNameCfg cfg m.ns (← parsePairs j "xmlns") (← getBool j "tab") n
     return (m, Json.mkObj [("ret", unmappedStr r)])
   | _ => throw "op kind"
 
@@ -102,16 +144,32 @@ def handle (j : Json) : Except String Json := do
     let t ← parseTree (← j.getObjVal? "tree")
     let (m, obs, ok) := decodeDoc v mode user t
     let fuel := !ok || obs.any fun o => !o.fuelOk
+    -- the data tree the converters build (`prune`: default/unordered converters drop childless plain items)
+    let prune := (j.getObjValAs? Bool "prune").toOption.getD true
+    let item := match t with
+      | .node _ _ _ decl _ => (decodeT v (parseRule j) prune mode 0 t (initMapper mode user decl).1).2
     return Json.mkObj [("obs", Json.arr (obs.map obsJson).toArray), ("final", stateJson m),
-      ("fuel", fuel)]
+      ("fuel", fuel), ("item", itemJson item)]
+  | "enc" =>
+    -- element_encode call pattern on a data tree; `tab` = [[id, local], ...] unqualified attributes declared
+    let item ← parseItem (← j.getObjVal? "item")
+    let ns ← parsePairs j "ns"
+    let rev ← parsePairs j "rev"
+    let tabl ← (← getArr j "tab").toList.mapM fun x => do
+      let a ← x.getArr?
+      if h : a.size = 2 then return ((← a[0].getNat?), (← a[1].getStr?)) else throw "tab"
+    let tab : Nat → String → Bool := fun i l => tabl.contains (i, l)
+    let (m, obs) := encodeDoc v mode tab item { ns, rev }
+    return Json.mkObj [("obs", Json.arr (obs.map encObsJson).toArray), ("final", stateJson m)]
   | "ops" =>
     let ns ← parsePairs j "ns"
     let m0 : Mapper := { ns, rev := mkReverse ns }
     let ops ← getArr j "ops"
+    let cfg := parseCfg j
     let mut m := m0
     let mut out : Array Json := #[]
     for o in ops do
-      let (m', r) ← step v mode m o
+      let (m', r) ← step v mode cfg m o
       m := m'
       out := out.push (r.mergeObj (stateJson m'))
     return Json.mkObj [("init", stateJson m0), ("steps", Json.arr out)]
